@@ -305,6 +305,40 @@ def called_names(raw):
     return sorted(out)
 
 
+# Anchor lock (specs/anchors.lock): for every statement anchor the number of times its token occurs in the function, and the
+# number of loops of every function that has loop directives, as observed on the tree the proofs were written for.  A different
+# count means an anchor or a loop ordinal may silently designate another statement: the unit is UNDECIDED, never an alarm.
+ANCHOR_LOCK_PATH = os.path.join(os.path.dirname(os.path.dirname(os.path.abspath(__file__))), 'specs', 'anchors.lock')
+_anchor_lock = None
+ANCHOR_SEEN = {}
+
+
+def anchor_lock():
+    global _anchor_lock
+    if _anchor_lock is None:
+        if os.environ.get('VERIF_RELOCK') or not os.path.exists(ANCHOR_LOCK_PATH):
+            _anchor_lock = {}
+        else:
+            _anchor_lock = json.load(open(ANCHOR_LOCK_PATH))
+    return _anchor_lock
+
+
+def check_anchor(key, count):
+    ANCHOR_SEEN[key] = count
+    want = anchor_lock().get(key)
+    if want is not None and want != count:
+        raise Undecided('anchor ambiguous: %s occurs %d time(s), the proof was written against %d' % (key, count, want))
+
+
+def count_code(b, needle, lo):
+    n, pos = 0, lo
+    while True:
+        pos = b.code_find(needle, pos + 1)
+        if pos < 0:
+            return n
+        n += 1
+
+
 def weave_fn(src, container, name, nth, opts, subs, mode, sig_only=False):
     """returns (woven_text, record)"""
     s, o, c = src.find_fn(container, name, nth)
@@ -432,6 +466,7 @@ def weave_fn(src, container, name, nth, opts, subs, mode, sig_only=False):
             parts = arg.split()
             kk = int(parts[0])
             loops = b.loops()
+            check_anchor('%s::%s|loops' % (container, name), len(loops))
             if kk > len(loops):
                 raise Undecided('anchor lost: loop %d of %s::%s' % (kk, container, name))
             kwpos, kw, lo, lc = loops[kk - 1]
@@ -456,6 +491,7 @@ def weave_fn(src, container, name, nth, opts, subs, mode, sig_only=False):
                 raise Undecided('bad anchor syntax: %s' % arg)
             needle = m.group(1).replace('\\"', '"')
             kth = int(m.group(2) or 1)
+            check_anchor('%s::%s|%s' % (container, name, needle), count_code(b, needle, bo))
             pos = bo
             for _ in range(kth):
                 pos = b.code_find(needle, pos + 1)
@@ -491,6 +527,7 @@ def weave_fn(src, container, name, nth, opts, subs, mode, sig_only=False):
                 raise Undecided('bad anchor syntax: %s' % arg)
             needle = m.group(1).replace('\\"', '"')
             kth = int(m.group(2) or 1)
+            check_anchor('%s::%s|%s' % (container, name, needle), count_code(b, needle, bo))
             pos = bo
             for _ in range(kth):
                 pos = b.code_find(needle, pos + 1)
@@ -887,7 +924,22 @@ def build_unit(repo, name, template=None):
     return u
 
 
+def relock_anchors(repo):
+    import glob
+    os.environ['VERIF_RELOCK'] = '1'
+    global _anchor_lock
+    _anchor_lock = {}
+    ANCHOR_SEEN.clear()
+    for pth in sorted(glob.glob(os.path.join(SPECS, 'units', '*.vrs'))):
+        build_unit(repo, os.path.basename(pth)[:-4])
+    json.dump(ANCHOR_SEEN, open(ANCHOR_LOCK_PATH, 'w'), indent=0, sort_keys=True)
+    return len(ANCHOR_SEEN)
+
+
 if __name__ == '__main__':
+    if sys.argv[1] == '--relock-anchors':
+        print('anchors locked:', relock_anchors(sys.argv[2] if len(sys.argv) > 2 else '/repo'))
+        sys.exit(0)
     repo = sys.argv[1]
     name = sys.argv[2]
     try:
